@@ -8,7 +8,7 @@ SPEC = {
     "props": "theories/PathMgr/Props_C07.v",
     "harness": [{"bin": "h_pathmgr", "n": {"quick": 390, "thorough": 6000}, "args": ["--prop", "C07"], "known_bits": KNOWN},
                 {"bin": "h_pathmgr", "n": {"quick": 450, "thorough": 2000}, "args": ["--mode", "match"], "known_bits": KNOWN}],
-    "rule": "(1) event histories on one real PathSet (verif-hooks probe) weighted towards issue reports: interface down on transit egress / transit ingress / source egress / destination ingress, connectivity down with right and wrong ingress, first-hop send failures (own and foreign source AS), issues cached before the first fetch, issues left pending across a refetch, refetches between reports, elapsed times around the 30 s / 90 s half-lives; oracles on the observations: after a handled report that affects the path in use while a valid unaffected path is cached the slot must hold an unaffected path (failures are classified by the theorem's premises evaluated on the observed scores), a report not about the path in use leaves the slot alone, a report about no cached path leaves the cache order alone; every cached path leaving through a reported interface is penalised by at least the literal penalty (observed scores before/after); batches of 2-3 reports queued before the worker handles the first are judged as one step (affected = by any report of the batch); after every lookup a path ENTERING the cache carries at most the DECAYED penalties (literal 1.0 / 0.4, half-life 30 s) of the issues reported about its interfaces, the cache is ranked by observed score, and with no path in use the best-ranked valid path is taken into use (directed: report, many half-lives, lookup bringing a new path over that interface). (2) direct matching: every issue kind built from every interface of 6 routes (with and without metadata) against every path: real target_type + matches_path vs the model and vs the property's reading 'uses the interface'",
+    "rule": "(1) event histories on one real PathSet (verif-hooks probe) weighted towards issue reports: interface down on transit egress / transit ingress / source egress / destination ingress, connectivity down with right and wrong ingress, first-hop send failures (own and foreign source AS), issues cached before the first fetch, issues left pending across a refetch, refetches between reports, elapsed times around the 30 s / 90 s half-lives; oracles on the observations: after a handled report that affects the path in use while a valid unaffected path is cached the slot must hold an unaffected path (failures are classified by the theorem's premises evaluated on the observed scores), a report not about the path in use leaves the slot alone, a report about no cached path leaves the cache order alone; every cached path leaving through a reported interface is penalised by at least the literal penalty (observed scores before/after); at a lookup a new path entering the cache visibly penalised is never preferred over a new allowed unexpired path of the same answer that no report is about (it must not be dropped, the slot must not move to the penalised one; directed: fresh issue, then 3 new paths into max_cached_paths_per_pair = 2 with the avoiding path last); batches of 2-3 reports queued before the worker handles the first are judged as one step (affected = by any report of the batch); after every lookup a path ENTERING the cache carries at most the DECAYED penalties (literal 1.0 / 0.4, half-life 30 s) of the issues reported about its interfaces, the cache is ranked by observed score, and with no path in use the best-ranked valid path is taken into use (directed: report, many half-lives, lookup bringing a new path over that interface). (2) direct matching: every issue kind built from every interface of 6 routes (with and without metadata) against every path: real target_type + matches_path vs the model and vs the property's reading 'uses the interface'",
     "assumptions": ["no 64-bit hash collision between issue ids", "the issue broadcast channel does not lag",
                     "interface lists are well formed (src egress; ingress/egress per transit AS; dst ingress; every AS once) for the matching theorem"],
     "trusted_extra": ["verif-hooks probe (crates/scion-stack/src/path/manager/verif_hooks.rs): thin adapter calling the real maintain / handle_issue_rx / report_path_issue / cached_path / path / target_type / matches_path",
